@@ -357,6 +357,10 @@ impl C06 {
             Ok(Ok(l)) => l,
         };
         cx.count("valid_import_ok");
+        if let Some((c, t)) = super::c07::foreign_target(&rlib) {
+            cx.violation("valid|instance-target-is-not-a-cell-of-the-library", json!({"cell": c, "target": t}));
+            return;
+        }
         let fl = Flattener::new(&g.lib);
         let cells: BTreeMap<String, raw::utils::Ptr<raw::Cell>> = rlib.cells.iter().map(|c| (c.read().unwrap().name.clone(), c.clone())).collect();
         if cells.len() != g.lib.structs.len() {
